@@ -2,6 +2,7 @@
 #![allow(clippy::too_many_arguments, clippy::type_complexity)]
 
 mod corpus;
+mod dwarfgen;
 mod faults;
 mod framework;
 mod gen;
@@ -122,7 +123,83 @@ fn main() {
                 }
             }
         }
+        "selftest" => {
+            // determinism proof: the same run seeds executed at worker counts 1, 4 and 16 (different
+            // processes, different real entropy / ASLR / arena-counter history underneath) must
+            // produce identical per-run digests
+            let n: u64 = arg_after(&args, "--runs").and_then(|s| s.parse().ok()).unwrap_or(1500);
+            let only = arg_after(&args, "--prop");
+            let mut bad = 0u64;
+            let mut total = 0u64;
+            for id in props::ALL {
+                if let Some(o) = &only {
+                    if o != id {
+                        continue;
+                    }
+                }
+                let prop = props::by_id(id).unwrap();
+                let mut maps = Vec::new();
+                for w in [1usize, 4, 16] {
+                    let opts = DriverOpts {
+                        tier: Tier::Quick,
+                        verif_seed,
+                        workers: w,
+                        runs_override: Some(n),
+                        watchdog: Duration::from_secs(120),
+                        minimise_budget: Duration::from_secs(1),
+                        keep_digests: true,
+                        write_evidence: false,
+                    };
+                    let agg = framework::run_batch(prop, &opts, n);
+                    maps.push(agg.digests);
+                }
+                let mut mism = 0;
+                for i in 0..n {
+                    let a = maps[0].get(&i);
+                    if a.is_none() || maps[1].get(&i) != a || maps[2].get(&i) != a {
+                        mism += 1;
+                        if mism <= 3 {
+                            eprintln!("NONDETERMINISM {} run {}: digests {:?} {:?} {:?}", id, i, a, maps[1].get(&i), maps[2].get(&i));
+                        }
+                    }
+                }
+                println!("selftest-determinism {}: {} run seeds x worker counts {{1,4,16}}: {} mismatches", id, n, mism);
+                bad += mism;
+                total += n;
+            }
+            println!("selftest-determinism: {} run seeds, {} mismatches", total, bad);
+            std::process::exit(if bad == 0 { 0 } else { 2 });
+        }
         "reference" => props::c08::reference_main(),
+        "dwarftest" => {
+            // attach synthesised DWARF to every valid corpus module and round-trip with generate_dwarf(true)
+            let corpus = corpus::load();
+            let mut n = 0;
+            for c in corpus.iter().filter(|c| validator::validate(&c.bytes, false).is_ok()) {
+                let Some(b) = dwarfgen::attach(&c.bytes) else { continue };
+                n += 1;
+                let mut cfg = types::CfgBits::walrus_default();
+                cfg.dwarf = true;
+                let src = c.source.clone();
+                let r = simrt::run_plain(Some(1), 16 << 20, move || {
+                    let (m, _) = ser::parse_with(&b, &cfg);
+                    let mut m = m.map_err(|e| format!("parse: {}", e))?;
+                    let out = m.emit_wasm();
+                    let names: Vec<String> = wasmsplit::customs(&out).unwrap_or_default().iter().map(|(n, _)| String::from_utf8_lossy(n).into_owned()).filter(|n| n.starts_with(".debug")).collect();
+                    Ok::<_, String>((validator::validate(&out, false).is_ok(), names))
+                });
+                match r {
+                    Ok(Ok((valid, names))) => {
+                        if !valid || !names.iter().any(|n| n == ".debug_info") || !names.iter().any(|n| n == ".debug_line") {
+                            println!("{}: valid={} debug sections {:?}", src, valid, names);
+                        }
+                    }
+                    Ok(Err(e)) => println!("{}: {}", src, e),
+                    Err(p) => println!("{}: PANIC {}", src, p.lines().next().unwrap_or("")),
+                }
+            }
+            println!("dwarftest: {} modules", n);
+        }
         "rt" => {
             // debug helper: rt <in.wasm> <cfg-mask> <out-prefix>: writes <prefix>.1.wasm (parse+emit) and <prefix>.2.wasm (again)
             let b = std::fs::read(&args[2]).unwrap();
